@@ -226,6 +226,7 @@ int main(int argc, char** argv) {
       int v = verBase;
       bool dirThere = dirAtStart;
       std::map<std::string, Content> pendingPartial;
+      std::map<std::string, Content> lastValid;   // name -> the last valid content written under that name (same text, same version)
       for (int i = 0; i < nOps; i++) {
         if (o.chance(60)) std::this_thread::sleep_for(std::chrono::microseconds(o.upto(4000)));
         int x = o.upto(100);
@@ -237,8 +238,9 @@ int main(int argc, char** argv) {
           int fd = ::open(st.c_str(), O_WRONLY | O_CREAT | O_TRUNC, 0644); writeAll(fd, c.text); ::close(fd);
           evEmit(opJ("put", n, "", &c)); int rc = ::rename(st.c_str(), pth(n).c_str()); evEmit(J().str("e", "FsRet").boolean("done", rc == 0));
           if (rc == 0) { std::lock_guard<std::mutex> g(diskMu); disk[n] = {c.kind == "valid", c.ver}; }
-        } else if (x < 50) {   // truncating write
-          Content c = makeContent(o, n, ++v);
+        } else if (x < 50) {   // truncating write; sometimes of exactly the content this name had when it was last valid
+          Content c = (lastValid.count(n) && o.chance(30)) ? lastValid[n] : makeContent(o, n, ++v);
+          if (c.kind == "valid") lastValid[n] = c;
           evEmit(opJ(c.text.empty() ? "trunc" : "write", n, "", &c));
           int fd = ::open(pth(n).c_str(), O_WRONLY | O_CREAT | O_TRUNC, 0644);
           if (fd >= 0) { if (!c.text.empty()) writeAll(fd, c.text); ::close(fd); }
